@@ -60,7 +60,7 @@ def iter_state_machine(run, ctx, fn_suffix, label):
             v = S.ret_value(p)
             if v is not None and v != "None" and not v.endswith(".next()"):
                 viol("yield-without-search", w, "yields %s on a path that never searched" % v)
-            if v == "None" and not any(ev.kind == "arm" for ev in p.events):
+            if v == "None":
                 pf = S.PathFacts(p.events)
                 n_ob += 1
                 if not pf.proves("Gt", POS, LEN):
